@@ -39,7 +39,7 @@ func (r *rng) next() uint64 {
 	z = (z ^ (z >> 27)) * 0x94d049bb133111eb
 	return z ^ (z >> 31)
 }
-func (r *rng) intn(n int) int   { return int(r.next() % uint64(n)) }
+func (r *rng) intn(n int) int    { return int(r.next() % uint64(n)) }
 func (r *rng) chance(p int) bool { return r.intn(100) < p }
 
 type line struct {
@@ -106,12 +106,12 @@ type forced struct {
 }
 
 type grule struct {
-	forced *forced
-	action                                 string // allow deny pass log ""
-	ipver                                  int    // 0,4,6
-	proto, notProto                        int    // -1 none
-	protoByName, notProtoByName            bool
-	srcNets, dstNets, notSrcNets, notDstNets []cidr
+	forced                                       *forced
+	action                                       string // allow deny pass log ""
+	ipver                                        int    // 0,4,6
+	proto, notProto                              int    // -1 none
+	protoByName, notProtoByName                  bool
+	srcNets, dstNets, notSrcNets, notDstNets     []cidr
 	srcPorts, dstPorts, notSrcPorts, notDstPorts []prange
 	srcNamed, dstNamed, notSrcNamed, notDstNamed []int
 	srcSets, dstSets, notSrcSets, notDstSets     []int
@@ -190,7 +190,7 @@ func coqList[T any](xs []T, f func(T) string) string {
 	}
 	return "[" + strings.Join(ys, "; ") + "]"
 }
-func coqN(i int) string       { return fmt.Sprintf("%d%%N", i) }
+func coqN(i int) string        { return fmt.Sprintf("%d%%N", i) }
 func coqRange(p prange) string { return fmt.Sprintf("(%d%%N, %d%%N)", p.first, p.last) }
 func coqOptN(i int) string {
 	if i < 0 {
